@@ -3306,6 +3306,13 @@ template< size_t L>
    size_t FixedString< L>::find_last_of( const char* str, size_t pos,
       size_t count) const noexcept
 {
+   if (pos == std::string::npos)
+   {
+      // search from the end of the string
+      if (mLength == 0)
+         return std::string::npos;
+      pos = mLength - 1;
+   } // end if
    if ((pos > mLength) || (str == nullptr) || (count == 0))
       return std::string::npos;
    for (size_t idx = pos + 1; idx-- > 0; )
@@ -3386,6 +3393,13 @@ template< size_t L>
    size_t FixedString< L>::find_last_not_of( const char* str, size_t pos,
       size_t count) const noexcept
 {
+   if (pos == std::string::npos)
+   {
+      // search from the end of the string
+      if (mLength == 0)
+         return std::string::npos;
+      pos = mLength - 1;
+   } // end if
    if ((pos > mLength) || (str == nullptr) || (count == 0))
       return std::string::npos;
    for (size_t idx = pos + 1; idx-- > 0; )
